@@ -157,6 +157,9 @@ def run(ctx):
     # 'grammar-conforming' means conforming to the Khronos grammar: the table the parser reads must be that grammar (pinned snapshot)
     import c09
     c09.snapshot_diff(ctx, "core", S.T["core"], S.T)
+    # the number <-> enumerant conversions the typed requests rest on (`from_u32` returns the enumerant OF that number): C08's legs
+    import c08
+    c08.run(ctx)
     rp.close()
     ctx.validated = rp.count
     hs = ["k_string_pack"] if ctx.tier == "thorough" else ["k_string_pack_small"]
